@@ -101,6 +101,18 @@ def run(tier):
             if "sync" in modes and rep % 2: sc["mode"] = "sync"
             if tables: sc["tables"] = tables
             scen.append(sc)
+    # an input schema with defaults (WithSchema): the engine sees the default for a field the row lacks, the caller's map does not
+    for name, sql, modes, tables in QUERIES:
+        if name not in ("projection", "star", "counting", "case", "tumbling"):
+            continue
+        for rep in range(2 if quick else 30):
+            n = rng.choice([4, 6])
+            rows = [nested_row(rng, i + 1) for i in range(n)]
+            if "TumblingWindow" in sql:
+                rows.append(dict(nested_row(rng, n + 1), ts=40000))
+            sc = {"meta": {"fam": "iso", "q": name + "+schema"}, "sql": sql, "rows": rows, "schema": {"zone_default": "z0", "lvl_default": {"$f": 7.5}}}
+            if "sync" in modes and rep % 2: sc["mode"] = "sync"
+            scen.append(sc)
     seqfam.run_scenarios(res, scen, "TraceIso", spec_dir=PIPE, tag="iso")
     # (b) two instances in one process
     pairs = []
@@ -115,7 +127,7 @@ def run(tier):
                 pat = pat * 40
             a = {"sql": sqla, "rows": [prow(rng, i + 1, ka) for i in range(na)]}
             b = {"sql": sqlb, "rows": [prow(rng, i + 1, kb) for i in range(nb)]}
-            pairs.append({"meta": {"fam": "pair"}, "a": a, "b": b, "pattern": pat})
+            pairs.append({"meta": {"fam": "pair"}, "a": a, "b": b, "pattern": pat, "late_b": rng.random() < 0.4})      # B created before A's first row, or only when B's first row is due
     # two instances share ONE table object (B registers the handle A's RegisterTable returned); A is stopped half-way: B's results stay
     # what they are when B runs alone
     for pat in pats[:6] if quick else pats:
